@@ -1,14 +1,14 @@
 SPECIFICATION SSpec
 CONSTANTS
-  T = 216
-  InitCap = 32
+  T = 1700
+  InitCap = 64
   Realloc = TRUE
   MaxChunks = 2
-  Sizes = {0, 1, 7, 16, 20, 33, 38}
+  Sizes = {0, 1, 16, 100, 200, 409, 1000, 3000}
   KeysU = {1}
   TrackContent = FALSE
   MaxInserts = 0
   ExceededUsesCapacity = TRUE
-  GenLen = 0
-INVARIANTS Bookkeeping VolumeBound LiveBound2
+  GenLen = 60
+INVARIANTS Bookkeeping LiveBound2 EmitSizes
 CHECK_DEADLOCK FALSE
